@@ -350,6 +350,15 @@ def impl(case):
                 pvv_call(dict(case, **w))()
             except Exception:
                 pass
+        import zlib
+        if zlib.crc32(repr(sorted(case.items())).encode()) % 3 == 0:
+            # an earlier request under the SAME key that fails (a PIN of two digits, a PAN of ten, a key index of three
+            # digits: the data to encrypt is then not a whole block): what it leaves behind must not reach the next one
+            for bad in ({'pin': '12'}, {'pan': '4' * 10}, {'kidx': 123}):
+                try:
+                    pvv_call(dict(case, **bad))()
+                except Exception:
+                    pass
         r = {'pvv': outcome(pvv_call(case), hs)}
         if hasattr(pinblock, '_get_tsp'):
             r['tsp'] = outcome(lambda: pinblock._get_tsp(case['pan'], case['kidx'], case['pin']), hs)
